@@ -740,10 +740,12 @@ func cleanDecorate(r *lib.Rng, src string, nComments int, kinds map[string]int) 
 	}
 	okAt := outsideStrings(b)
 	type point struct {
-		off int
-		eol bool
+		off   int
+		eol   bool
+		after bool   // whole comment lines after the line the element ends (between siblings / after the last child)
 	}
 	var points []point
+	indents := map[int]string{}
 	seen := map[point]bool{}
 	add := func(p point) {
 		if !seen[p] {
@@ -807,14 +809,31 @@ func cleanDecorate(r *lib.Rng, src string, nComments int, kinds map[string]int) 
 			return true
 		}
 		if strings.TrimSpace(string(b[lineStart(b, s):s])) == "" && !avoid[s] {
-			add(point{s, false})
+			add(point{off: lineStart(b, s)})
+			indents[lineStart(b, s)] = indentAt(b, s)
 		}
 		j := e
 		for j < len(b) && (b[j] == ' ' || b[j] == '\t' || b[j] == ';') {
 			j++
 		}
 		if j == len(b) || b[j] == '\n' {
-			add(point{j, true})
+			add(point{off: j, eol: true})
+			// the slot after this element: before the next sibling or, for a last child, before the closing brace
+			if j < len(b) && strings.TrimSpace(string(b[lineStart(b, s):s])) == "" {
+				nextLine := j + 1
+				avoided := false
+				for a := range avoid {
+					if lineStart(b, a) == nextLine {
+						avoided = true
+					}
+				}
+				if !avoided && nextLine <= len(b) && okAt[nextLine] {
+					add(point{off: nextLine, after: true})
+					if _, ok := indents[nextLine]; !ok {
+						indents[nextLine] = indentAt(b, s)
+					}
+				}
+			}
 		}
 		return true
 	})
@@ -837,6 +856,32 @@ func cleanDecorate(r *lib.Rng, src string, nComments int, kinds map[string]int) 
 	}
 	var inserts []ins
 	usedEol := map[int]bool{}
+	// two more positions where the unchanged formatter is not a fixed point (known findings, corpus/C39):
+	// own-line comments right after a statement whose last source line ends with `)` (the node's range excludes a
+	// closing parenthesis, so after re-layout the comment is no longer adjacent to the node end), and comments
+	// between the last statement of a switch case and the next `case` / `default`
+	prevLineEndsWithParen := func(off int) bool {
+		i := off - 1
+		for i >= 0 && (b[i] == ' ' || b[i] == '\t' || b[i] == '\n' || b[i] == ';') {
+			i--
+		}
+		return i >= 0 && b[i] == ')'
+	}
+	nextLineIsCase := func(off int) bool {
+		rest := strings.TrimLeft(string(b[off:]), " \t\n")
+		return strings.HasPrefix(rest, "case ") || strings.HasPrefix(rest, "default:") || strings.HasPrefix(rest, "default ")
+	}
+	var usable []point
+	for _, pt := range points {
+		if !pt.eol && (prevLineEndsWithParen(pt.off) || (pt.after && nextLineIsCase(pt.off))) {
+			continue
+		}
+		usable = append(usable, pt)
+	}
+	points = usable
+	if len(points) == 0 {
+		return src
+	}
 	for k := 0; k < nComments; k++ {
 		pt := points[r.Intn(len(points))]
 		text, kind := simple()
@@ -848,14 +893,41 @@ func cleanDecorate(r *lib.Rng, src string, nComments int, kinds map[string]int) 
 			kinds["clean:end-of-line:"+kind]++
 			inserts = append(inserts, ins{pt.off, " " + text})
 		} else {
-			kinds["clean:own-line-before:"+kind]++
-			ind := indentAt(b, pt.off)
-			pre := ""
-			if r.Chance(1, 4) {
-				pre = "\n" + ind
-				kinds["clean:blank-line-before-comment"]++
+			// 1-3 comment GROUPS (1-2 comments each) separated by blank lines, adjacent or not to the code
+			// before and after: every attachment slot (before the first child, between siblings, after the last
+			// child, at top level and in nested bodies) sees header/leading/trailing/leftover combinations
+			slot := "before"
+			if pt.after {
+				slot = "after"
 			}
-			inserts = append(inserts, ins{pt.off, pre + text + "\n" + ind})
+			ind := indents[pt.off]
+			var sbg strings.Builder
+			if r.Chance(1, 3) {
+				sbg.WriteString("\n")
+				kinds["clean:"+slot+":blank-line-before-first-group"]++
+			}
+			ng := []int{1, 1, 1, 2, 2, 3}[r.Intn(6)]
+			kinds[fmt.Sprintf("clean:%s:%d-groups", slot, ng)]++
+			for gi := 0; gi < ng; gi++ {
+				if gi > 0 {
+					sbg.WriteString("\n")
+					if r.Chance(1, 5) {
+						sbg.WriteString("\n")
+					}
+				}
+				for ci := 0; ci < 1+r.Intn(2); ci++ {
+					if gi > 0 || ci > 0 {
+						text, kind = simple()
+					}
+					kinds["clean:"+slot+":"+kind]++
+					sbg.WriteString(ind + text + "\n")
+				}
+			}
+			if r.Chance(1, 3) {
+				sbg.WriteString("\n")
+				kinds["clean:"+slot+":blank-line-after-last-group"]++
+			}
+			inserts = append(inserts, ins{pt.off, sbg.String()})
 		}
 	}
 	sort.SliceStable(inserts, func(i, j int) bool { return inserts[i].off < inserts[j].off })
@@ -995,7 +1067,11 @@ func main() {
 		if err != nil {
 			panic(err)
 		}
-		cls, out, issues := checkCase(b, defaultOpt())
+		po := defaultOpt()
+		if ob, err := os.ReadFile(strings.TrimSuffix(*flagProbe, ".cdc") + ".opts.json"); err == nil {
+			_ = json.Unmarshal(ob, &po)
+		}
+		cls, out, issues := checkCase(b, po)
 		fmt.Printf("class: %s\n--- output ---\n%s--- issues ---\n", cls, out)
 		for _, is := range issues {
 			fmt.Printf("%s: %s\n", is.Key, is.What)
